@@ -144,19 +144,7 @@ func calculateNextQuota(
 		}
 	}
 
-	// The minimum limit quota is 1
-	if next < 1 {
-		next = 1
-	}
-	if next < total*MinimumQuotaPercent {
-		next = total * MinimumQuotaPercent
-	}
-
-	if next-current > remaining {
-		next = current + remaining
-	}
-
-	next = math.Ceil(next)
+	next = clampNextQuota(next, current, remaining, total)
 
 	if flowControlType == proxyv1alpha1.TokenBucket {
 		burst = next / total * float64(upstreamTotal.LimitItemDetail.TokenBucket.Burst)
@@ -175,6 +163,32 @@ func calculateNextQuota(
 	setFlowControlLimit(&newCondition.LimitItemDetail, flowControlType, next, burst)
 
 	return *newCondition
+}
+
+// clampNextQuota bounds a proposed quota. It never grows by more than the unallocated remainder (and not at all
+// when the upstream is over-committed, e.g. after the global limit was lowered), never exceeds the global limit,
+// and is at least max(1, MinimumQuotaPercent of the global limit).
+func clampNextQuota(next, current, remaining, total float64) float64 {
+	if remaining < 0 {
+		if next > current {
+			next = current
+		}
+	} else if next-current > remaining {
+		next = current + remaining
+	}
+	if next > total {
+		next = total
+	}
+
+	// The minimum limit quota is 1
+	if next < total*MinimumQuotaPercent {
+		next = total * MinimumQuotaPercent
+	}
+	if next < 1 {
+		next = 1
+	}
+
+	return math.Ceil(next)
 }
 
 func setFlowControlLimit(limit *proxyv1alpha1.LimitItemDetail, flowControlType proxyv1alpha1.FlowControlSchemaType, qps, burst float64) {
